@@ -130,17 +130,100 @@ func (r *c12render) flatten(v ssa.Value, conds []string, seen map[*ssa.Phi]bool,
 	var out []alt
 	for i, e := range phi.Edges {
 		pred := phi.Block().Preds[i]
-		cs := append([]string{}, conds...)
+		// every fact contributes one or more alternative condition sets (a boolean that merges several tests,
+		// `t := a == b; if !t { t = member }`, is split into the tests it merges); the edge's sets are the product
+		sets := [][]string{append([]string{}, conds...)}
 		for _, f := range append(append([]condFact{}, r.p.facts(pred)...), edgeFacts(pred, phi.Block())...) {
-			s := r.cond(f)
-			if keep(s) {
-				cs = append(cs, s)
+			alts := r.factAlts(f, keep, 0)
+			var next [][]string
+			for _, base := range sets {
+				for _, a := range alts {
+					cs := append(append([]string{}, base...), a...)
+					if !contradictory(cs) {
+						next = append(next, cs)
+					}
+				}
 			}
+			sets = next
 		}
-		out = append(out, r.flatten(e, cs, seen, keep)...)
+		for _, cs := range sets {
+			out = append(out, r.flatten(e, cs, seen, keep)...)
+		}
 	}
 	delete(seen, phi)
 	return out
+}
+
+// factAlts: the alternative sets of (kept) condition strings under which fact f holds.  A boolean phi with an
+// edge value that is not a constant is split per incoming edge; a phi of constants stays atomic ("phi:tN": the
+// membership flag set in a loop).
+func (r *c12render) factAlts(f condFact, keep func(string) bool, depth int) [][]string {
+	one := func() [][]string {
+		s := r.cond(f)
+		if keep(s) {
+			return [][]string{{s}}
+		}
+		return [][]string{{}}
+	}
+	phi, ok := f.V.(*ssa.Phi)
+	if !ok || depth > 3 {
+		return one()
+	}
+	allConst := true
+	for _, e := range phi.Edges {
+		if _, isC := e.(*ssa.Const); !isC {
+			allConst = false
+		}
+	}
+	if allConst {
+		return one()
+	}
+	var out [][]string
+	for i, e := range phi.Edges {
+		pred := phi.Block().Preds[i]
+		var edgeConds []string
+		for _, g := range append(append([]condFact{}, r.p.facts(pred)...), edgeFacts(pred, phi.Block())...) {
+			if _, isPhi := g.V.(*ssa.Phi); isPhi {
+				continue // nested merged flags on the way to this edge are not expanded further
+			}
+			if s := r.cond(g); keep(s) {
+				edgeConds = append(edgeConds, s)
+			}
+		}
+		if k, isC := e.(*ssa.Const); isC {
+			if k.Value != nil && (k.Value.String() == "true") == f.Val {
+				out = append(out, edgeConds)
+			}
+			continue
+		}
+		for _, a := range r.factAlts(condFact{V: e, Val: f.Val}, keep, depth+1) {
+			cs := append(append([]string{}, edgeConds...), a...)
+			if !contradictory(cs) {
+				out = append(out, cs)
+			}
+		}
+	}
+	if len(out) == 0 {
+		return one()
+	}
+	return out
+}
+
+// contradictory: the set contains a test and its negation ("a==b" with "a!=b", "x" with "!x").
+func contradictory(cs []string) bool {
+	m := map[string]bool{}
+	for _, c := range cs {
+		m[c] = true
+	}
+	for _, c := range cs {
+		if strings.HasPrefix(c, "!") && m[c[1:]] {
+			return true
+		}
+		if i := strings.Index(c, "=="); i > 0 && m[c[:i]+"!="+c[i+2:]] {
+			return true
+		}
+	}
+	return false
 }
 
 func normConds(cs []string) []string {
